@@ -654,6 +654,24 @@ class C13(SolverSuite):
             actors["S1"] = s1
             ops1 = G.gen_single_ops(rng, "S1", rng.randint(0, 8), with_solve=rng.random() < 0.8)
             ops = interleave(rng, [ops, ops1])
+        if rng.random() < 0.04 and "S1" not in actors:
+            # a long run (hundreds of trials) observed by recording / console listeners only
+            spec["listeners"] = [ls for ls in spec["listeners"] if ls["kind"] in ("recording", "console")] or \
+                [{"kind": "recording", "overrides": list(ALL_CB)}]
+            n_long = rng.randint(250, 600)
+            spec["params"]["itersLimit"] = n_long
+            spec["params"]["eps"] = G.EPS_MIN[N]
+            spec["params"]["refineSolution"] = False
+            ops = [{"a": "S0", "op": "create"}] + [{"a": "S0", "op": "iterate", "k": k} for k in G.gen_batches(rng, rng.randint(0, n_long), style="big")]
+            ops.append({"a": "S0", "op": "solve"})
+        elif rng.random() < 0.12 and "S1" not in actors and any(o["op"] == "solve" for o in ops):
+            # the user raises the budget (or tightens eps) on the parameters object and resumes: one more final notification
+            for _ in range(rng.randint(1, 2)):
+                if rng.random() < 0.7:
+                    ops.append({"a": "S0", "op": "setp", "field": "itersLimit", "value": int(L + rng.randint(1, 12) + 12 * _)})
+                else:
+                    ops.append({"a": "S0", "op": "setp", "field": "eps", "value": float("%.3g" % (spec["params"]["eps"] * 0.3))})
+                ops.append({"a": "S0", "op": "solve"})
         plan = G.base_plan(self.prop, run_seed, actors, ops, clock=G.gen_clock(rng))
         if rng.random() < 0.15:
             # fault configuration: the objective raises once (inside a batch: the caller catches it; inside Solve: contained)
@@ -726,7 +744,15 @@ class C13(SolverSuite):
                 for mk in marks:
                     kind = mk["op"]["op"]
                     if mk["raised"]:
-                        continue     # a call that raised (injected failure) promises no notification
+                        # a call that raised (injected failure) promises no notification; if one is sent all the same, it
+                        # may only speak of trials that were completed
+                        done_pts = [c.y for c in real[mk["calls_before"]:mk["calls_after"]] if c.completed]
+                        for e in a.cb_events[mk["ev_before"]:mk["ev_after"]]:
+                            if e[1] == lid and e[2] == "OnEndIteration" and any(y not in done_pts for y in (e[3].get("ys") or [])):
+                                bad("end_iteration_points", "the DoGlobalIteration call that failed announced %r as finished trials; completed were %r"
+                                    % (e[3].get("ys"), done_pts))
+                                return True
+                        continue
                     oe = [e for e in a.cb_events[mk["ev_before"]:mk["ev_after"]] if e[1] == lid]
                     ends = [e for e in oe if e[2] == "OnEndIteration"]
                     stops = [e for e in oe if e[2] == "OnMethodStop"]
@@ -923,8 +949,11 @@ class C16(SolverSuite):
                     ops.append({"a": "S0", "op": "solve"})
                     if rng.random() < 0.2:
                         ops.append({"a": "S0", "op": "results"})
+                    persistent = rng.random() < 0.3
+                    if not persistent and rng.random() < 0.3:
+                        ops.append({"a": "S0", "op": "solve"})      # the failure was transient: the caller simply tries again
                     yield G.base_plan(self.prop, run_seed, {"S0": spec}, ops, clock=clock,
-                                      faults=[{"a": "S0", "at_eval": k, "exc": exc, "when": when, "persistent": rng.random() < 0.3,
+                                      faults=[{"a": "S0", "at_eval": k, "exc": exc, "when": when, "persistent": persistent,
                                                "noargs": rng.random() < 0.3}])
 
     def cases_refine(self, rng, tier, run_seed):
@@ -1099,7 +1128,9 @@ class C16(SolverSuite):
         # record rules on the post-fault search data: k-1 trials + 2 ends, failed coordinate absent
         xk = twin["trials"][k - 1][0] if len(twin["trials"]) >= k else None
         ww = _Flagger()
-        ok = c06.check_record(ww, a, "after_fault", expect_trials=k - 1, forbid_x=xk)
+        retried = len(a.solve_info) >= 2 and not persistent
+        # (when the caller retried, the live search data has moved on: the record is checked after the retry, below)
+        ok = retried or c06.check_record(ww, a, "after_fault", expect_trials=k - 1, forbid_x=xk)
         if not ok:
             cl, msg = ww.flags[0]
             bad("record_" + cl, "%s: %s" % (tag, msg))
@@ -1109,6 +1140,32 @@ class C16(SolverSuite):
         if len(stops) != n_solves:
             bad("method_stop", "%s: OnMethodStop delivered %d times for %d Solve call(s)" % (tag, len(stops), n_solves))
             return rep
+        # nothing but completed trials is ever announced to a listener (the failed point is not a trial)
+        done_pts = {c.y for c in real if c.completed}
+        ghost = [pt for (opno, pt) in a.notified if pt not in done_pts]
+        if ghost:
+            bad("failed_point_announced", "%s: OnEndIteration announced %r, which was never successfully evaluated" % (tag, ghost[0]))
+            return rep
+        # the failure was transient and the caller called Solve again: the search goes on from the recorded state
+        if len(a.solve_info) >= 2 and not persistent:
+            n_done = len([c for c in real if c.completed])
+            s1 = sols[-1]
+            if "error" in s1 or a.solve_info[-1]["raised"]:
+                bad("retry", "%s: the second Solve %s" % (tag, "raised " + str(a.solve_info[-1]["raised"]) if a.solve_info[-1]["raised"] else "returned an unreadable result"))
+                return rep
+            if s1["nglobal"] != n_done:
+                bad("retry_count", "%s: after the second Solve %d global trials are reported, %d were completed" % (tag, s1["nglobal"], n_done))
+                return rep
+            allv = [c.value for c in real if c.completed]
+            if s1["value"] != min(allv) or s1["point"] not in [c.y for c in real if c.completed and c.value == min(allv)]:
+                bad("retry_best", "%s: after the second Solve the result is %r at %r, best completed trial has value %r" % (tag, s1["value"], s1["point"], min(allv)))
+                return rep
+            ww2 = _Flagger()
+            if not C06Monitor().check_record(ww2, a, "after_retry", expect_trials=n_done):
+                cl, msg = ww2.flags[0]
+                bad("retry_record_" + cl, "%s: after the second Solve: %s" % (tag, msg))
+                return rep
+            rep.probes["second_solve_after_transient_fault"] += 1
         rep.probes["k_eq_2"] += int(k == 2)
         rep.probes["k_eq_T"] += int(k == len(tg))
         rep.probes["fault_after_new_opt"] += int(k >= 3 and tg[k - 2][1] == min(v for (y, v) in tg[:k - 1]) and tg[k - 2][1] < min(v for (y, v) in tg[:k - 2]))
